@@ -20,7 +20,7 @@ from vlib import coqlist, zlist, zlit, boollit
 from props import c08 as H   # shared harness helpers of the same owner (context, dart bodies)
 
 PROPERTY = "C02"
-MODEL_TARGETS = ["Model/C02Stream.vo", "Model/C02Check.vo"]
+MODEL_TARGETS = ["Model/C02Stream.vo", "Model/C02Gemmx.vo", "Model/C02Check.vo"]
 RULE = ("layout resolution: 1-4 iteration dims, rank 1-3 operands, element widths 8/16/32/64, layouts none / strided "
         "(+offset) / tiled-strided (1-2 tile levels, aligned and misaligned with the schedule), affine schedules with "
         "offsets; conversion: snax_alu (1 template dim) and snax_gemmx (3 template dims, matmul i32/i8, gemm with "
@@ -205,8 +205,18 @@ def gemmx_conv_body(kind):
         resc = H._generic("%h", ["%g"], ["!dart.stream<i32>"], "%a2 : i32, %c2 : i8",
                           f'%k2 = "kernel.rescale"(%a2) {H._rescale_attrs(r)} : (i32) -> i8', "i8", "%k2")
         return {"args": ["i8", "i8", "i8"], "pre": pre, "ops": mac + resc + ["dart.yield %h : !dart.stream<i8>"]}
+    if kind == "simd":
+        r = {"zpin": 0, "zpout": 0, "mult": [1], "shift": [0], "max": 127, "min": -128, "dr": 0}
+        resc = H._generic("%g", ["%s0"], ["!dart.stream<i32>"], "%a : i32, %c : i8",
+                          f'%k = "kernel.rescale"(%a) {H._rescale_attrs(r)} : (i32) -> i8', "i8", "%k")
+        return {"args": ["i32", "i8"], "pre": pre, "ops": resc + ["dart.yield %g : !dart.stream<i8>"]}
     add = H._generic("%h", ["%g", "%s2"], ["!dart.stream<i32>", "!dart.stream<i32>"], "%a2 : i32, %b2 : i32, %c2 : i32",
                      "%k2 = kernel.add %a2, %b2 : i32, i32 -> i32", "i32", "%k2")
+    if kind == "gemm_i8":
+        r = {"zpin": 0, "zpout": 0, "mult": [1], "shift": [0], "max": 127, "min": -128, "dr": 0}
+        resc = H._generic("%j", ["%h"], ["!dart.stream<i32>"], "%a3 : i32, %c3 : i8",
+                          f'%k3 = "kernel.rescale"(%a3) {H._rescale_attrs(r)} : (i32) -> i8', "i8", "%k3")
+        return {"args": ["i8", "i8", "i32", "i8"], "pre": pre, "ops": mac + add + resc + ["dart.yield %j : !dart.stream<i8>"]}
     return {"args": ["i8", "i8", "i32", "i32"], "pre": pre, "ops": mac + add + ["dart.yield %h : !dart.stream<i32>"]}
 
 
@@ -217,13 +227,16 @@ ACCS = {
                "els": [1, 1, 4]},
     "mm_i8": {"acc": "snax_gemmx", "tdims": [8, 8, 8], "rel": [[True, False, True], [False, True, True], [True, True, False]],
               "els": [1, 1, 1]},
+    "gemm_i8": {"acc": "snax_gemmx", "tdims": [8, 8, 8],
+                "rel": [[True, False, True], [False, True, True], [True, True, False], [True, True, False]], "els": [1, 1, 4, 1]},
+    "simd": {"acc": "snax_gemmx", "tdims": [8, 8], "rel": [[True, True], [True, True]], "els": [4, 1]},
     "gemm_i32": {"acc": "snax_gemmx", "tdims": [8, 8, 8],
                  "rel": [[True, False, True], [False, True, True], [True, True, False], [True, True, False]], "els": [1, 1, 4, 4]},
 }
 
 
 def gen_conv_case(rng, family=None, safe_bias=0.75):
-    fam = family or rng.choice(["alu", "alu", "mm_i32", "mm_i8", "gemm_i32"])
+    fam = family or rng.choice(["alu", "alu", "alu", "mm_i32", "mm_i8", "gemm_i32", "gemm_i8", "simd"])
     spec = ACCS[fam]
     t = rng.choice([0, 1, 1, 2, 3])
     tb = [rng.choice([1, 2, 2, 3, 4, 6]) for _ in range(t)]
@@ -281,7 +294,19 @@ def _patch_recorders():
         def rec(self, op, pats):
             _REC["raw"] = [([x.data for x in p.upper_bounds], [x.data for x in p.temporal_strides],
                             [x.data for x in p.spatial_strides]) for p in pats]
-            return orig(self, op, pats)
+            _REC["custom"] = None
+            res = orig(self, op, pats)
+            ni, no, np_, ops = res
+            operands = list(op.operands)
+            srcs = []
+            for v in list(ni) + list(no):
+                k = [j for j, o in enumerate(operands) if o is v]
+                srcs.append(("op", k[0]) if k else ("zero", 0))
+            _REC["custom"] = [(([x.data for x in p.upper_bounds], [x.data for x in p.temporal_strides],
+                                [x.data for x in p.spatial_strides]), sc) for p, sc in zip(np_, srcs)]
+            _REC["ser"] = getattr(self, "serializer_ratio", 0)
+            _REC["sd2"] = self.streamer_config.data.streamers[2].spatial_dims[-1] if len(self.streamer_config.data.streamers) > 2 else 0
+            return res
         cls.set_stride_patterns = rec
     wrap(SNAXStreamer)
     wrap(SNAXGEMMXAccelerator)
@@ -316,6 +341,7 @@ def impl_convert(case):
         info.append({"spats": list(streamers[oi].spatial_dims), "bcast": any(isinstance(o, HasBroadcast) for o in streamers[oi].opts),
                      "relevant": rel})
     _REC["raw"] = None
+    _REC["custom"] = None
     err, final = None, None
     with warnings.catch_warnings():
         warnings.simplefilter("ignore")
@@ -328,7 +354,8 @@ def impl_convert(case):
         sr = [o for o in mod.walk() if o.name == "snax_stream.streaming_region"][0]
         final = [([x.data for x in p.upper_bounds], [x.data for x in p.temporal_strides], [x.data for x in p.spatial_strides])
                  for p in sr.stride_patterns.data]
-    return raw, err, final, info
+    custom = (_REC.get("custom"), _REC.get("ser"), _REC.get("sd2")) if raw is not None and fam != "alu" else None
+    return raw, err, final, info, custom
 
 
 def coq_sp(p):
@@ -386,7 +413,7 @@ def convert_okb(e, spats, dims):
 
 
 # ---------------------------------------------------------------- L1
-HEADER = "From Snax Require Import Base.Prelude Model.C02Stream Model.C02Check.\n"
+HEADER = "From Snax Require Import Base.Prelude Model.C02Stream Model.C02Gemmx Model.C02Check.\n"
 
 
 def correspondence(ctx):
@@ -410,10 +437,10 @@ def correspondence(ctx):
     groups.append(("resolve", "chk_resolve", cases, meta))
 
     # conversion
-    conv, convm, fin, finm, okb, okbm, strm, strmm = [], [], [], [], [], [], [], []
+    conv, convm, fin, finm, okb, okbm, strm, strmm, cus, cusm = [], [], [], [], [], [], [], [], [], []
     for i in range(ctx.n(160, 800)):
         case = gen_conv_case(rng)
-        raw, err, final, info = impl_convert(case)
+        raw, err, final, info, custom = impl_convert(case)
         ops = coqlist(coq_operand(case, oi, info[oi]) for oi in range(len(info)))
         if raw is not None:
             want = "(Ok " + coqlist(coq_sp(p) for p in raw) + ")"
@@ -425,6 +452,13 @@ def correspondence(ctx):
         convm.append({"case": case, "raw": raw, "error": err})
         ctx.count({"kind": "convert", "case": case, "raw": raw, "error": err},
                   sum(1 for b in case["bounds"] if b > 1) >= 2, f"cv{case}", "convert:" + case["fam"] + (":err" if raw is None else ""))
+        if custom is not None and raw is not None:
+            kindc = {"mm_i32": "G3_i32", "mm_i8": "G3_i8", "gemm_i32": "G4_i32", "gemm_i8": "G4_i8", "simd": "GSimd"}[case["fam"]]
+            cw = "None" if custom[0] is None else "(Some " + coqlist(
+                f"({coq_sp(p)}, {'SZero' if sc[0] == 'zero' else 'SOp ' + str(sc[1])})" for p, sc in custom[0]) + ")"
+            cus.append(f"({kindc}, {zlit(custom[1])}, {zlit(custom[2])}, {coqlist(coq_sp(p) for p in raw)}, {cw})")
+            cusm.append({"case": case, "raw": raw, "custom": custom})
+            ctx.count({"kind": "customise", "fam": case["fam"], "raw": raw}, True, f"cu{case}", "customise:" + case["fam"])
         if case["fam"] == "alu" and final is not None:
             fin.append(f"({ops}, {coqlist(coq_sp(p) for p in final)})")
             finm.append({"case": case, "final": final})
@@ -438,7 +472,8 @@ def correspondence(ctx):
                 strm.append(f"({zlit(e)}, {coq_operand(case, oi, info[oi])})")
                 strmm.append({"case": case, "operand": oi})
     groups += [("convert", "chk_convert", conv, convm), ("final", "chk_final", fin, finm),
-               ("okb", "chk_okb", okb, okbm), ("stream", "chk_stream", strm[:400], strmm[:400])]
+               ("okb", "chk_okb", okb, okbm), ("stream", "chk_stream", strm[:400], strmm[:400]),
+               ("customise", "chk_custom", cus, cusm)]
     return H.run_groups("c02", groups, chunk=150, files=4, header=HEADER)
 
 
